@@ -53,7 +53,7 @@ var props = map[string]propCfg{
 		Assumptions: commonAssumptions,
 	},
 	"C15": {
-		Require: []string{"history_steps_compared", "stream_messages_compared", "concurrent_displays", "first_seen_types_displayed_concurrently", "fan_out_messages_compared"},
+		Require: []string{"history_steps_compared", "stream_messages_compared", "concurrent_displays", "first_seen_types_displayed_concurrently", "fan_out_messages_compared", "non_rtcm_displays_checked"},
 		Race:    true, QuickBatches: 8, ThoroughBatches: 64, Parallel: 8, Level: "exploration", Floor: 50,
 		Rule:        "a pool of ~250 frames (captured receiver frames; generated well-formed MSM4/MSM7 of all 14 types incl. illegal timestamps and padding, truncated ill-formed bodies, 1005/1006 well-formed and truncated, random frames of other types). Canonical result per frame and log level = decoded struct (reflect.DeepEqual) and readable text with the two MSM time lines removed, from a fresh handler processing that frame first. Histories: 200 frames in random order with immediate and distant repetitions through ONE handler at both levels, each step compared with the canonical result, displayed twice, raw-byte hash before/after. Concurrency under the race detector: 2-16 goroutines each with its own handler decoding from the SAME input byte slices, every message value-copied (as the fan-out does) to 2-4 consumer goroutines that display, Analyse, PrepareForDisplay, Copy and set their own log level; GOMAXPROCS in {2,4,16}; two goroutines never share one *Message (the property speaks of copies). Non-trivial: every history/concurrent run (each mixes all types). Distinct by hash of (pool seed, order / parameters).",
 		Assumptions: commonAssumptions,
@@ -102,7 +102,7 @@ var props = map[string]propCfg{
 		Assumptions: commonAssumptions,
 	},
 	"C20": {
-		Require:      []string{"types_enumerated", "decoder_family_checks", "handler_dispatch_checks"},
+		Require:      []string{"types_enumerated", "decoder_family_checks", "handler_dispatch_checks", "stream_classifications_checked"},
 		QuickBatches: 8, ThoroughBatches: 16, Parallel: 16, Level: "exploration", Floor: 20, MayBeExhaustive: true,
 		Rule:        "complete enumeration of the 4096 message types and the two negative sentinels. For each: MSM4/MSM7/MSM predicates, constellation name and title against a table written out from the property statement; for each non-negative type five synthetic CRC-valid frames (well-formed MSM4 body, MSM7 body, 1005 body, 1006 body, random bytes; thorough adds 64 more) checked for: header/decoder family acceptance, timestamp extraction only for the fourteen MSM types, full decoding attempted for exactly MSM4, MSM7, 1005, 1006 (observed as a decoded struct or a decoder error text versus the 'cannot be displayed' strings), and non-empty display at both log levels. Non-trivial: the 14 MSM types, their neighbours 1070..1140, 1005, 1006, 1230 and the sentinels. Distinct by type number.",
 		Assumptions: commonAssumptions,
